@@ -88,7 +88,7 @@ Proof. destruct y, z; reflexivity. Qed.
 Lemma enq_of_map_enq z qs : enq_of z (map (AEnq z) qs) = qs.
 Proof. unfold enq_of. induction qs; simpl; auto. rewrite side_eqb_refl. simpl. f_equal. assumption. Qed.
 Lemma enq_of_settings z y kv : enq_of z (settings_actions y kv) = [].
-Proof. unfold enq_of, settings_actions. induction kv as [|[i v] t IH]; simpl; auto. destruct (N.eqb i 4); simpl; auto. Qed.
+Proof. unfold enq_of, settings_actions. destruct (last_occ 4 kv); reflexivity. Qed.
 
 Lemma q_on_all s qs : Forall (fun q => qsid q = s) qs -> q_on s qs = qs.
 Proof. unfold q_on. induction 1 as [|q l H _ IH]; simpl; auto. rewrite H, N.eqb_refl, IH. reflexivity. Qed.
